@@ -373,6 +373,9 @@ func (m *C09) OnCall(e *sim.Env, c *sim.Call) {
 		return
 	}
 	pre := c.Pre.View
+	if sim.ParamsOf(post).Min > sim.ParamsOf(pre).Min {
+		e.Count("c09.minimum_stake_raised")
+	}
 	// successful unjail => preconditions held in the pre-state
 	if deliverOK(c) && c.Meta.Decoded {
 		if msg, ok := c.Meta.Tx.Msg.(posTypes.MsgUnjail); ok {
@@ -417,6 +420,9 @@ func (m *C09) OnCall(e *sim.Env, c *sim.Call) {
 			e.Count("c09.unjail_refused")
 			a := hexs(msg.ValidatorAddr)
 			if v, ok := pre.Vals[a]; ok && v.Jailed {
+				if s := pre.Sign[a]; s != nil && !s.Tombstoned && !c.Time.Before(s.JailedUntil) && v.Status == 2 && v.Tokens.Cmp(bi(sim.ParamsOf(pre).Min)) < 0 {
+					e.Count("c09.unjail_refused_below_raised_minimum")
+				}
 				if s := pre.Sign[a]; s != nil && !s.Tombstoned && c.Time.Before(s.JailedUntil) {
 					e.Count("c09.unjail_refused_too_early")
 					if s.JailedUntil.Sub(c.Time) <= 1e9 {
